@@ -143,6 +143,9 @@ Definition comment_text (s : style) (ind : nat) (t : bytes) : bytes :=
 
 Definition write_comment (s : style) (ind : nat) (t : bytes) (b : buf) : buf :=
   if head_is 35 t then add_one s [10] [] b
+  else if is_compressed s then
+    (* rsass b24aa61: no re-indentation when compressed, the text is written as it is *)
+    add [42;47] (add t (add [47;42] b))
   else add_one s [42;47;10] [42;47]
          (add (comment_text s ind t) (add [47;42] (do_indent_no_nl s ind b))).
 
